@@ -288,6 +288,7 @@ RULES = [
     ("C06-R4", "buffer selection, implicit limit, parse_limit", r4),
     ("X-BUFFER", "buffering predicates (ordered or aggregate) and recursive expression predicates [shared]", lambda ctx: __import__("extra").buffering_predicates(ctx)),
     ("X-PHASES", "every clause of the query is parsed exactly once, in grammar order (a re-parsed LIMIT / ORDER BY overwrites the first) [shared]", lambda ctx: __import__("extra").parser_phases(ctx)),
+    ("X-EXPRWALK", "recursive walks of an expression's value layer visit left, right and the further arguments [shared]", lambda ctx: __import__("extra2").value_walks_reach_arguments(ctx)),
 ]
 
 EXPLANATION = (
